@@ -153,7 +153,7 @@ def history_case(ctx, case) -> None:
     path = d / "data.json"
     model: dict[str, dict] = {}
     pool = ["run", "", "run ", "žluť", 'q"uo\\te', "a" * 300, "run/1", "0", "run\n2", "metadata", "data", "actions", "nested", "c",
-            "a", "seed", "run_type", '"', "{", "null"] + [f"r{i}" for i in range(rng.randint(1, 6))]
+            "a", "seed", "run_type", '"', "{", "null", "run.1", "run.2", "lr0.0003", "lr0.0001", "x.y.z"] + [f"r{i}" for i in range(rng.randint(1, 6))]
     _AUDIT.update(on=True, path=str(path), events=[])
     try:
         for idx in range(case["length"]):
@@ -181,7 +181,7 @@ def history_case(ctx, case) -> None:
             before_parsed = json.loads(before) if before is not None else {}
             _AUDIT["events"].clear()
             use_dispatcher = (not failing) and rng.random() < 0.04
-            if use_dispatcher and (not name.strip() or len(name) > 40 or name != name.strip() or not all(ch.isalnum() for ch in name)):
+            if use_dispatcher and (not name.strip() or len(name) > 40 or name != name.strip() or not all(ch.isalnum() or ch == "." for ch in name) or name.startswith(".")):
                 use_dispatcher = False       # the plot savers build file names from the run name: keep those saves on save_json
             if use_dispatcher:
                 # the plot / drawing savers have their own input assumptions (finite gaps, coalition ids): realistic matrices
